@@ -9,12 +9,12 @@ util/double-conversion really accept:
 * numbers: `FilePiece::ReadFloat` = skip `kSpaces`, then double-conversion `StringToFloat` with
   ALLOW_TRAILING_JUNK on the rest of the window: the *longest prefix* that is a number is consumed and
   the junk stays in the stream (`-0.4a b` is probability −0.4 followed by the words `a`, `b`); `inf`,
-  `+inf`, `-inf` are numbers; `NaN` is accepted only when nothing but at most one final token follows
-  it in the whole file (ParseNumber compares the *window* with "NaN"), after which the loader always
-  runs into end of file — modelled as a parse error (same verdict);
+  `+inf`, `-inf` are numbers; `NaN` (unsigned, exactly these three characters consumed) is a number since the
+  FilePiece repair a461449 (before it ParseNumber compared the rest of the *window* with "NaN");
   float32 overflow (|q| ≥ 2¹²⁸ − 2¹⁰³) is ±inf, underflow is 0;
-* probabilities: `> 0` (incl. +inf) clamped to 0 (config SILENT, as in the harness); −inf is *accepted*
-  (no check in Read1Gram / ReadNGram); back-offs: inf ⇒ FormatLoadException ("Bad backoff");
+* probabilities: `> 0` (incl. +inf) clamped to 0 (config SILENT, as in the harness); −inf and NaN are *accepted*
+  (no check in Read1Gram / ReadNGram; both stored as the non-finite `PVal.negInf`); back-offs: inf / NaN ⇒
+  FormatLoadException ("Bad backoff");
 * count lines: `ngram ` + `strtol` (leading white space, sign, value taken mod 2³²) + `=` + `istream >> uint64_t`
   (leading white space, sign with wrap-around, trailing junk ignored, > 2⁶⁴−1 ⇒ "Bad count");
 * everything else (line reading, section headers, `\end\`, vocabulary ids) as in `KV.Arpa`.
@@ -95,7 +95,8 @@ def scanNumber (t : Bytes) : Option (Num × Bytes) :=
   let neg := st.1
   let t1 := st.2
   if (str "inf").isPrefixOf t1 then some (.inf neg, t1.drop 3)
-  else if (str "NaN").isPrefixOf t1 then some (.nan, t1.drop 3)
+  -- ParseNumber accepts NaN only when the consumed characters are exactly "NaN" (a signed NaN is a ParseNumberException)
+  else if (str "NaN").isPrefixOf t1 then (if t1.length == t.length then some (.nan, t1.drop 3) else none)
   else
     let ir := t1.span isDigit
     let fr : Bytes × Bytes := match ir.2 with
@@ -114,7 +115,6 @@ def readNum (s : Bytes) : Except LErr (Num × Bytes) :=
   if s.isEmpty then .error .eof else
   match scanNumber s with
   | none => .error .parse
-  | some (.nan, _) => .error .parse
   | some r => .ok r
 
 /-- a stored log-probability -/
